@@ -284,8 +284,8 @@ class Ctx:
             shutil.rmtree(self.work, ignore_errors=True)
 
 
-def build_executor(ctx, tags="verif"):
-    out = os.path.join(ctx.work, "arkexec")
+def build_executor(ctx, tags="verif", name="arkexec"):
+    out = os.path.join(ctx.work, name)
     # the typed wrappers are generated code; regenerate if missing
     gen = os.path.join(HARNESS, "arkx", "typed_gen.go")
     if not os.path.exists(gen):
@@ -294,14 +294,16 @@ def build_executor(ctx, tags="verif"):
     if os.path.realpath(REPO) != "/repo":
         # a scratch copy of the repository (seed sweeps): build from a private copy of the harness
         hdir = os.path.join(ctx.work, "harness")
-        shutil.copytree(HARNESS, hdir)
+        if not os.path.exists(hdir):
+            shutil.copytree(HARNESS, hdir)
         gm = open(os.path.join(hdir, "go.mod")).read().replace("=> /repo", "=> " + os.path.realpath(REPO))
         open(os.path.join(hdir, "go.mod"), "w").write(gm)
     shutil.copy(os.path.join(REPO, "go.sum"), os.path.join(hdir, "go.sum"))
     p, dt = run(["go", "build", "-tags", tags, "-o", out, "./cmd/arkexec"], 600, env=GOENV, cwd=hdir)
     if p.returncode != 0:
         raise Inconclusive("executor build failed:\n" + p.stdout[-3000:])
-    ctx.binpath = out
+    if name == "arkexec":
+        ctx.binpath = out
     return out
 
 
@@ -432,12 +434,26 @@ def run_monitor(ctx, logpath, timeout=900):
     return verdict
 
 
+_SEQ_CACHE = {}
+
+
 def load_seq_of_log(logpath, seqno):
     """Return the generated op sequence number `seqno` (1-based) executed into logpath."""
-    with open(logpath + ".seqs") as f:
-        for i, line in enumerate(f, 1):
-            if i == seqno:
-                return json.loads(line)
+    key = logpath
+    if key not in _SEQ_CACHE:
+        if len(_SEQ_CACHE) > 4:
+            _SEQ_CACHE.clear()
+        try:
+            with open(logpath + ".seqs") as f:
+                _SEQ_CACHE[key] = f.readlines()
+        except OSError:
+            _SEQ_CACHE[key] = []
+    lines = _SEQ_CACHE[key]
+    if 1 <= seqno <= len(lines):
+        try:
+            return json.loads(lines[seqno - 1])
+        except ValueError:
+            return None
     return None
 
 
@@ -797,7 +813,260 @@ def do_replay(path, ctxseed=1):
         ctx.cleanup()
 
 
-CHECKS = {}
+def run_tlc_model(ctx, module, mcdefs, cfgtext, label, workers=8, timeout=900):
+    """Run TLC on a stand-alone model (no emission); returns (generated, distinct, violated-invariant or None)."""
+    d = os.path.join(ctx.work, "model-" + label)
+    os.makedirs(d, exist_ok=True)
+    for t in glob.glob(os.path.join(SPEC, "*.tla")):
+        shutil.copy(t, d)
+    open(os.path.join(d, "MC_x.tla"), "w").write("---- MODULE MC_x ----\nEXTENDS %s\n%s\n====\n" % (module, mcdefs))
+    open(os.path.join(d, "x.cfg"), "w").write(cfgtext)
+    p, dt = run(["tlc", "-workers", str(workers), "-metadir", os.path.join(d, "meta"), "-config", "x.cfg", "MC_x.tla"], timeout, cwd=d)
+    gen, dist = parse_tlc_stats(p.stdout)
+    ctx.stats["states"] += dist
+    ctx.stats["transitions"] += gen
+    bad = None
+    if "Model checking completed. No error has been found" not in p.stdout:
+        m = re.search(r"(Invariant|Action property|Temporal properties) ?(\w+)? ?(is|were) violated", p.stdout)
+        if not m:
+            raise Inconclusive("TLC failed on %s:\n%s" % (label, p.stdout[-2500:]))
+        bad = m.group(2) or m.group(1)
+    ctx.stats["families"].append(dict(family=label, states=dist, transitions=gen, wall_s=round(dt, 1), violated=bad))
+    ctx.stats["tlc_cmds"].append("tlc -config x.cfg MC_x.tla  # %s: %s" % (label, cfgtext.replace("\n", "; ")[:300]))
+    return gen, dist, bad
+
+
+def exec_logs_and_monitor(ctx, jobs, label):
+    """jobs: list of (cmd, cfg, logpath, cell).  Runs the executor commands, then the monitor on every log."""
+    def one(j):
+        cmd, cfg, lp, cell = j
+        return exec_proc(ctx, cmd, label, cfg, label, cell) or dict(read=0, executed=0, events=0, panics=0, crashed=True)
+    with ThreadPoolExecutor(max_workers=NCPU) as ex:
+        stats = list(ex.map(one, jobs))
+    live = [(j, st) for j, st in zip(jobs, stats) if not st.get("crashed")]
+    for (cmd, cfg, lp, cell), st in live:
+        shutil.copy(os.path.join(SPEC, "ArkTrace.tla"), os.path.dirname(lp))
+        shutil.copy(os.path.join(SPEC, "ArkWorld.tla"), os.path.dirname(lp))
+    with ThreadPoolExecutor(max_workers=MON_PAR) as ex:
+        verdicts = list(ex.map(lambda js: run_monitor(ctx, js[0][2]), live))
+    for ((cmd, cfg, lp, cell), st), v in zip(live, verdicts):
+        if v["seqs"] != st["executed"] or v["lines"] != st["events"]:
+            raise Inconclusive("monitor consumed %s/%s lines of %s" % (v["lines"], st["events"], lp))
+        ctx.stats["traces"] += v["seqs"]
+        ctx.stats["events"] += v["lines"]
+        for vi in v["viol"]:
+            ctx.violations.append(dict(cls=vi["cls"], detail=vi["d"], line=vi["l"], ops=load_seq_of_log(lp, vi["seq"]), cfg=cfg,
+                                       family=label, cell=cell, cmd=cmd))
+        ctx.stats["cells"].append(dict(family=label, cell=cell, cfg=cfg, sequences=st["executed"], events=st["events"]))
+        if not ctx.stats["samples"]:
+            with open(lp) as f:
+                ctx.stats["samples"].append(dict(family=label, cell=cell, log_head=[json.loads(next(f)) for _ in range(3)]))
+
+
+def zip_logs(paths, mode, out):
+    """Zip the logs of several executions of the same histories line by line into a product log: the first log is
+    paired with each of the others.  Purely structural; all comparisons are made by ArkProd.tla."""
+    files = [open(p) for p in paths]
+    n = 0
+    with open(out, "w") as fo:
+        for lines in zip(*files):
+            for other in lines[1:]:
+                fo.write('{"k":"prod","mode":"%s","a":%s,"b":%s}\n' % (mode, lines[0].strip(), other.strip()))
+                n += 1
+        rest = [f.readline() for f in files]
+    for f in files:
+        f.close()
+    if any(r for r in rest):
+        return n, False      # different numbers of lines: the executions diverged structurally
+    return n, True
+
+
+def run_prod_monitor(ctx, logpath, timeout=900):
+    d = os.path.dirname(logpath)
+    shutil.copy(os.path.join(SPEC, "ArkProd.tla"), d)
+    cfgp = os.path.join(d, "prod.cfg")
+    open(cfgp, "w").write("SPECIFICATION PSpec\nINVARIANT Done\nCHECK_DEADLOCK FALSE\n")
+    env = dict(os.environ, TRACE_FILE=logpath, JAVA_TOOL_OPTIONS="-XX:ParallelGCThreads=1 -XX:CICompilerCount=2 -Xms1g -Xmx6g -Xss64m")
+    p, dt = run(["tlc", "-workers", "1", "-metadir", logpath + ".meta", "-config", cfgp, os.path.join(d, "ArkProd.tla")], timeout, env=env, cwd=d)
+    shutil.rmtree(logpath + ".meta", ignore_errors=True)
+    m = re.search(r'^"VERDICT (.*)"$', p.stdout, re.M)
+    if not m or "Model checking completed. No error has been found" not in p.stdout:
+        raise Inconclusive("product monitor did not produce a verdict for %s:\n%s" % (logpath, p.stdout[-3000:]))
+    return json.loads(json.loads('"' + m.group(1) + '"'))
+
+
+def product_check(ctx, mode, variants, sources, label, validate_each=True):
+    """variants: list of (name, binary, cfg-overrides, env); sources: list of ("seq", seqfile, cfg) or ("drive", n, len, cfg).
+    Every source is executed by every variant; each log is validated by ArkTrace, and the logs of one source are
+    zipped (first variant vs the others) and validated by ArkProd."""
+    d = os.path.join(ctx.work, "prod-" + label)
+    os.makedirs(d, exist_ok=True)
+    for t in glob.glob(os.path.join(SPEC, "*.tla")):
+        shutil.copy(t, d)
+    jobs = []
+    for si, src in enumerate(sources):
+        for vi, (vname, binp, over, env) in enumerate(variants):
+            cfg = dict(src[-1])
+            cfg.update(over)
+            lp = os.path.join(d, "log-%d-%s.ndjson" % (si, vname))
+            if src[0] == "seq":
+                cmd = [binp, "-in", src[1], "-out", lp, "-cfg", json.dumps(cfg), "-keep", str(src[2])]
+            else:
+                cmd = [binp, "-drive", str(src[1]), "-len", str(src[2]), "-out", lp, "-cfg", json.dumps(cfg)]
+            jobs.append((si, vname, cmd, cfg, lp, env))
+
+    def one(j):
+        si, vname, cmd, cfg, lp, env = j
+        p, dt = run(cmd, 900, env=dict(os.environ, **(env or {})))
+        if p.returncode != 0:
+            if any(m in p.stdout for m in CRASH_MARKS):
+                ctx.violations.append(dict(cls=ctx.pid + ".crash", detail=p.stdout[:200], line=0, ops=None, cfg=cfg, family=label, cell=vname, cmd=cmd))
+                return None
+            raise Inconclusive("executor failed (harness defect):\n" + p.stdout[-2000:])
+        return json.loads(p.stdout.strip().splitlines()[-1])
+    with ThreadPoolExecutor(max_workers=NCPU) as ex:
+        stats = list(ex.map(one, jobs))
+    if any(s is None for s in stats):
+        return
+    if validate_each:
+        with ThreadPoolExecutor(max_workers=MON_PAR) as ex:
+            verdicts = list(ex.map(lambda j: run_monitor(ctx, j[4]), jobs))
+        for j, st, v in zip(jobs, stats, verdicts):
+            ctx.stats["traces"] += v["seqs"]
+            ctx.stats["events"] += v["lines"]
+            for vi in v["viol"]:
+                ctx.violations.append(dict(cls=vi["cls"], detail=vi["d"], line=vi["l"], ops=load_seq_of_log(j[4], vi["seq"]), cfg=j[3],
+                                           family=label, cell=j[1]))
+    prods = []
+    for si, src in enumerate(sources):
+        paths = [j[4] for j in jobs if j[0] == si]
+        out = os.path.join(d, "prod-%d.ndjson" % si)
+        n, same = zip_logs(paths, mode, out)
+        if not same:
+            ctx.violations.append(dict(cls="%s.shape" % mode, detail="executions of the same history produced logs of different length",
+                                       line=0, ops=None, cfg=src[-1], family=label, cell="product-%d" % si))
+        prods.append((si, out, n))
+    with ThreadPoolExecutor(max_workers=MON_PAR) as ex:
+        pv = list(ex.map(lambda pr: run_prod_monitor(ctx, pr[1]), prods))
+    for (si, out, n), v in zip(prods, pv):
+        ctx.stats["events"] += v["lines"]
+        ctx.stats.setdefault("product_lines", 0)
+        ctx.stats["product_lines"] += v["lines"]
+        first = [j[4] for j in jobs if j[0] == si][0]
+        resets = []
+        if v["viol"]:
+            with open(first) as f:
+                for k, line in enumerate(f, 1):
+                    if line.startswith('{"k":"reset"'):
+                        resets.append(k)
+        import bisect
+        for vi in v["viol"][:2000]:
+            # map the product line back to the sequence: number of resets in the first log up to that line
+            nvar = len(variants) - 1
+            target = (vi["l"] - 1) // max(1, nvar) + 1
+            seqno = bisect.bisect_right(resets, target)
+            ctx.violations.append(dict(cls=vi["cls"], detail=vi["d"], line=vi["l"], ops=load_seq_of_log(first, seqno),
+                                       cfg=sources[si][-1], family=label, cell="product-%d" % si))
+    ctx.stats["cells"].append(dict(family=label, variants=[v[0] for v in variants], sources=len(sources),
+                                   product_lines=sum(n for _, _, n in prods)))
+    if not ctx.stats["samples"] and prods:
+        with open(prods[0][1]) as f:
+            ctx.stats["samples"].append(dict(family=label, product_head=[json.loads(next(f)) for _ in range(2)]))
+
+
+def driven_sources(ctx, binp, names, count, cell, extra):
+    """Histories drawn by the seeded driver on the real world (once), to be replayed by every variant of a product."""
+    out = []
+    d = os.path.join(ctx.work, "driven")
+    os.makedirs(d, exist_ok=True)
+    for k, name in enumerate(names):
+        dr = DRIVES[name]
+        cfg = dict(CELLS[cell], comps=dr["comps"], probes=2, seed=ctx.seed * 31 + k, reuse=True, maxent=dr["maxent"])
+        cfg.update(dr.get("extra", {}))
+        cfg.update(extra)
+        lp = os.path.join(d, "gen-%s.ndjson" % name)
+        p, dt = run([binp, "-drive", str(count), "-len", str(dr[ctx.tier]["len"]), "-out", lp, "-cfg", json.dumps(cfg)], 900)
+        if p.returncode != 0:
+            raise Inconclusive("driver failed:\n" + p.stdout[-1500:])
+        out.append(("seq", lp + ".seqs", 1000, cfg))
+    return out
+
+
+def check_c12(ctx):
+    """Determinism: the same histories executed twice in one process-configuration and in separate processes with different
+    environments (GOGC, GOMAXPROCS, map seeds are per process anyway) must agree on everything logged."""
+    quick = ctx.tier == "quick"
+    b = build_executor(ctx)
+    gens = []
+    for fam in (["rel", "cache"] if quick else ["rel", "cache", "obs", "batch"]):
+        g = run_generator(ctx, fam, 600)
+        if g["design_violation"]:
+            raise Inconclusive("design check of %s fails (%s); run the property's own check" % (fam, g["design_violation"]))
+        gens.append((fam, g))
+    variants = [("p1", b, {}, {}), ("p2", b, {}, {"GOGC": "10", "GOMAXPROCS": "2"}), ("p3", b, {}, {"GOGC": "400", "GOMAXPROCS": "16"})]
+    sources = []
+    for fam, g in gens:
+        keep = max(1, min(1000, int(1000 * (6000 if quick else 60000) / max(1, g["nseq"]))))
+        sources.append(("seq", g["seqs"], keep, dict(CELLS["typed1"], comps=FAMILIES[fam]["exec"]["comps"], probes=4, seed=ctx.seed, stats=True)))
+        sources.append(("seq", g["seqs"], keep, dict(CELLS["unsafe2"], comps=FAMILIES[fam]["exec"]["comps"], probes=4, seed=ctx.seed + 1, stats=True)))
+    sources += driven_sources(ctx, b, ["wide", "rel2", "obs", "lock", "reset"], 20 if quick else 300, "typed11", dict(stats=True))
+    variants.insert(1, ("p1again", b, {}, {}))
+    product_check(ctx, "C12", variants, sources, "c12")
+    return finish(ctx, "product traces of 3 processes")
+
+
+def check_c20(ctx):
+    """Build configurations: the same histories (<= 64 component types) through the four builds; results and
+    panic / no panic per call must be equal (messages may differ)."""
+    quick = ctx.tier == "quick"
+    bins = [("plain", build_executor(ctx)), ("tiny", build_executor(ctx, "verif,ark_tiny", "arkexec_tiny")),
+            ("debug", build_executor(ctx, "verif,ark_debug", "arkexec_debug")),
+            ("tinydebug", build_executor(ctx, "verif,ark_tiny,ark_debug", "arkexec_tinydebug"))]
+    variants = [(n, b, {}, {}) for n, b in bins]
+    sources = []
+    for fam in (["core", "rel"] if quick else ["core", "rel", "cache", "batch", "lock"]):
+        g = run_generator(ctx, fam, 600)
+        if g["design_violation"]:
+            raise Inconclusive("design check of %s fails (%s); run the property's own check" % (fam, g["design_violation"]))
+        keep = max(1, min(1000, int(1000 * (1500 if quick else 40000) / max(1, g["nseq"]))))
+        for cell in ["typed1", "unsafe2"]:
+            sources.append(("seq", g["seqs"], keep, dict(CELLS[cell], comps=FAMILIES[fam]["exec"]["comps"], probes=3, misuse=6, qmis=True,
+                                                          seed=ctx.seed, stats=True)))
+    sources += driven_sources(ctx, bins[0][1], ["wide", "rel2", "obs", "lock", "reset"], 8 if quick else 200, "typed11",
+                              dict(stats=True, misuse=8, qmis=True))
+    sources += driven_sources(ctx, bins[0][1], ["wide", "lock"], 8 if quick else 200, "unsafe1", dict(misuse=8, qmis=True))
+    product_check(ctx, "C20", variants, sources, "c20")
+    return finish(ctx, "product traces of the four build configurations")
+
+
+def check_c18(ctx):
+    quick = ctx.tier == "quick"
+    # design: registry + toTypes word arithmetic at the capacity boundary (scaled constants)
+    for mt, ws in ([(4, 2)] if quick else [(4, 2), (6, 3), (5, 2)]):
+        types = ", ".join('"t%d"' % i for i in range(mt + 1))
+        gen, dist, bad = run_tlc_model(ctx, "ArkReg", "mc_Types == {%s}" % types,
+                                       "SPECIFICATION Spec\nCONSTANTS\n  Types <- mc_Types\n  MaxTypes = %d\n  WordSize = %d\n  FixToTypes = TRUE\n"
+                                       "INVARIANTS IdsOK ToTypesOK CapacityUsable\nPROPERTIES Stable\nCHECK_DEADLOCK FALSE\n" % (mt, ws),
+                                       "registry-%d-%d" % (mt, ws))
+        if bad:
+            ctx.stats["design_findings"].append(dict(family="registry", invariant=bad))
+    # conformance at the real constants: 256 types (64 with ark_tiny), registry histories through the monitor
+    bins = {"": build_executor(ctx), "ark_tiny": build_executor(ctx, "verif,ark_tiny", "arkexec_tiny")}
+    d = os.path.join(ctx.work, "registry")
+    os.makedirs(d, exist_ok=True)
+    jobs = []
+    runs = 2 if quick else 12
+    for tag, b in bins.items():
+        for ci, caps in enumerate([[1], [4, 2], [1024]]):
+            cfg = dict(path="unsafe", caps=caps, comps=[], seed=ctx.seed * 100 + ci)
+            lp = os.path.join(d, "log-%s-%d.ndjson" % (tag or "default", ci))
+            jobs.append(([b, "-registry", str(runs), "-len", "80", "-out", lp, "-cfg", json.dumps(cfg)], cfg, lp,
+                         "%s/caps%s" % (tag or "default", caps)))
+    exec_logs_and_monitor(ctx, jobs, "registry")
+    return finish(ctx, "registry model with scaled constants; conformance with the real limits")
+
+
+CHECKS = {"C18": check_c18, "C12": check_c12, "C20": check_c20}
 
 
 def main(argv):
